@@ -747,6 +747,9 @@ def run(ctx):
     _rs = ctx.corpus.func('repository', 'Repository.restore')
     _sn = ctx.corpus.func('repository', 'Repository.snapshot')
     leftover_from_finished_loop(ctx, 'C01.R3', [_rs, _sn] + list(_rs.all_nested()) + list(_sn.all_nested()), 'restore / snapshot planning')
+    from .c14 import final_file_records_complete
+
+    final_file_records_complete(ctx, 'C01.R4')
     r11_serialization(ctx)
     r1b_traversal_complete(ctx)
     r3b_chunk_record_fresh(ctx)
